@@ -35,7 +35,7 @@ type ReadFault struct {
 	Ordinal     int    `json:"ordinal"`
 	Chunks      []int  `json:"chunks,omitempty"` // read sizes; 0 = a (0,nil) read
 	FailAt      int    `json:"fail_at"`          // byte offset (clamped to the length); used when Kind != ""
-	Kind        string `json:"kind,omitempty"`   // "" | "error" | "panic"
+	Kind        string `json:"kind,omitempty"`   // "" | "error" | "error-eof" (io.ErrUnexpectedEOF at a declaration boundary) | "panic"
 	EOFWithData bool   `json:"eof_with_data,omitempty"`
 	CloseErr    bool   `json:"close_err,omitempty"`
 }
@@ -153,6 +153,15 @@ func (r *faultResolver) FindFileByPath(path string) (protocompile.SearchResult, 
 			}
 			if f.Kind == "panic" {
 				rd.pan = &panicToken{fmt.Sprintf("read panic for %s#%d at byte %d", path, ord, rd.failAt)}
+			} else if f.Kind == "error-eof" {
+				// a stream cut off between two top-level declarations, failing the way
+				// truncated streams do in the standard library
+				if i := strings.LastIndex(string(rd.data[:rd.failAt]), "}\n"); i >= 0 {
+					rd.failAt = i + 2
+				} else {
+					rd.failAt = 0
+				}
+				rd.err = io.ErrUnexpectedEOF
 			} else {
 				rd.err = &injErr{fmt.Sprintf("read error for %s#%d at byte %d", path, ord, rd.failAt)}
 			}
@@ -214,7 +223,11 @@ func genC07(t *rapid.T) C07Case {
 		case 1:
 			c.Res = append(c.Res, ResFault{Path: path, Ordinal: ord, Kind: "panic"})
 		case 2:
-			c.Read = append(c.Read, ReadFault{Path: path, Ordinal: ord, Kind: "error", FailAt: rapid.IntRange(0, 200).Draw(t, "failAt"), Chunks: genChunks(t)})
+			kind := "error"
+			if rapid.IntRange(0, 2).Draw(t, "eofErr") == 0 {
+				kind = "error-eof"
+			}
+			c.Read = append(c.Read, ReadFault{Path: path, Ordinal: ord, Kind: kind, FailAt: rapid.IntRange(0, 400).Draw(t, "failAt"), Chunks: genChunks(t)})
 		case 3:
 			c.Read = append(c.Read, ReadFault{Path: path, Ordinal: ord, Kind: "panic", FailAt: rapid.IntRange(0, 200).Draw(t, "failAt"), Chunks: genChunks(t)})
 		case 4:
